@@ -7,13 +7,13 @@ PROP = {
         # per-case watchdog (60 s) is four orders of magnitude away
         {"target": "c06_stream_rc", "sub": "bfd",
          "quick": {"cases": 7000, "max_size": 40, "workers": 6, "case_alarm": 60},
-         "thorough": {"cases": 250000, "max_size": 60, "workers": 6, "case_alarm": 60}},
+         "thorough": {"cases": 150000, "max_size": 60, "workers": 6, "case_alarm": 60}},
         {"target": "c06_stream_rc", "sub": "server",
          "quick": {"cases": 5000, "max_size": 40, "workers": 5, "case_alarm": 60},
-         "thorough": {"cases": 130000, "max_size": 60, "workers": 5, "case_alarm": 60}},
+         "thorough": {"cases": 80000, "max_size": 60, "workers": 5, "case_alarm": 60}},
         {"target": "c06_stream_rc", "sub": "client",
          "quick": {"cases": 5000, "max_size": 40, "workers": 5, "case_alarm": 60},
-         "thorough": {"cases": 130000, "max_size": 60, "workers": 5, "case_alarm": 60}},
+         "thorough": {"cases": 80000, "max_size": 60, "workers": 5, "case_alarm": 60}},
     ],
     "assumptions": [
         "SIGPIPE is ignored by the process (as tbox::main does); writes after the peer is gone are exercised for crash-freedom only",
